@@ -230,6 +230,15 @@ Definition special_st (pi : T) (c : list T) (q : bool * T) : list T * T :=
 Definition special_run (pi : T) (c : list T) (qs : list (bool * T)) : list T * list T :=
   fold_left (fun st q => let cy := special_st pi (fst st) q in (fst cy, snd st ++ [snd cy])) qs (c, []).
 
+(** ** a history of Round requests in one process.  A request is (digits, table): Round(double, d) is the table of one entry, Round(Vector, d) the
+    table of one row, Round(Matrix, d) any table.  The library's Round keeps nothing between calls (no static, no cache): the history is answered
+    request by request, in order; the first request that exits ends the process. *)
+Fixpoint round_run (qs : list (Z * list (list T))) : res (list (list (list T))) :=
+  match qs with
+  | [] => Ok []
+  | q :: r => let* a := round_table (snd q) (fst q) in let* b := round_run r in Ok (a :: b)
+  end.
+
 (** the table of a fresh process *)
 Definition daw_table0 : list T := [#0; #0; #0; #0; #0; #0].
 End Model.
